@@ -18,7 +18,7 @@ RULE = ('case = one bound built by the real compute() from a generated landscape
         ', '.join(boundgen.SHAPES) + '; d = 1..8; enlargement 1.02..2) for one class/option combination '
         '(UnitCube, Ellipsoid, UnitCubeEllipsoidMixture, Union{Ellipsoid|Mixture members, unit or not, '
         'n_points_min}, NeuralBound{0,1,2 nets}, NautilusBound{0,1 nets, periodic, split_threshold 1|100, '
-        'serial or NautilusPool(2)}), followed by a seeded random history of split/sample operations. '
+        'serial or NautilusPool(2)}), followed by a seeded random history of split/trim/sample operations. '
         'Non-trivial = >= 10^4 sampled points checked against contains() and, for classes that can split, '
         '>= 1 successful split (or >= 2 ellipsoids); distinct by (class, options, shape, dimension).')
 ASSUMPTIONS = ['enlargement factors >= 1.02 (floating point cannot honour "> 1" arbitrarily close to 1)',
@@ -78,7 +78,7 @@ def run_case(spec):
     try:
         prob = boundgen.problem(rng, shape, d)
         if kind == 'NautilusBound' and opts.get('force_periodic') and prob['periodic'] is None:
-            prob['periodic'] = np.sort(rng.choice(d, int(rng.integers(1, d + 1)), replace=False))
+            prob['periodic'] = rng.choice(d, int(rng.integers(1, d + 1)), replace=False)
         if kind == 'NautilusBound' and not opts.get('force_periodic') and shape != 'wrapped':
             prob['periodic'] = None
         if opts.get('pool'):
@@ -92,8 +92,10 @@ def run_case(spec):
         if kind == 'NautilusBound' and bound.shift is not None:
             obs['periodic_bounds'] += 1
 
+        trimmed = []
+
         def check_enclosure(tag):
-            if cons is None or not basic:
+            if cons is None or not basic or trimmed:      # trim() deliberately gives up construction points
                 return
             c = cons[_in_cube(cons)] if unit else cons
             inside = bound.contains(c)
@@ -163,9 +165,16 @@ def run_case(spec):
         check_samples(3000)
         if kind == 'Union':
             for step in range(int(rng.integers(3, 8))):
-                op = rng.choice(['split', 'split', 'split_no_overlap', 'sample'])
+                op = rng.choice(['split', 'split', 'split_no_overlap', 'sample', 'trim'])
                 if op == 'sample':
                     check_samples(int(rng.choice([1, 50, 999, 1000, 2500])))
+                    continue
+                if op == 'trim':
+                    # dropping a low-density member: the remaining union must still be sound for what it returns
+                    if bound.trim(threshold=float(rng.choice([1.0, 30.0, 1e3]))):
+                        obs['trims'] += 1
+                        trimmed.append(True)
+                    check_samples(int(rng.choice([1, 700, 1500])))
                     continue
                 if op == 'split_no_overlap' and opts['bound_class'] != 'Ellipsoid':
                     op = 'split'
